@@ -1751,6 +1751,9 @@ async fn perform_connectivity_checks_async(inner: Arc<IceTransportInner>) {
         });
     }
 
+    #[cfg(rustrtc_verif)]
+    crate::verif_hooks::ice::pairs::record(&pairs, role);
+
     let mut pairs_to_check = Vec::new();
     {
         let mut checking = inner.checking_pairs.lock().await;
@@ -4794,5 +4797,32 @@ impl IceTransport {
     /// `stun_request_authenticated` on this transport's local parameters.
     pub fn verif_request_authenticated(&self, packet: &[u8]) -> bool {
         stun_request_authenticated(packet, &self.inner)
+    }
+}
+
+// Verification hooks (compiled only with `--cfg rustrtc_verif`): run the periodic / outbound pieces of the
+// runner once, in-process (C06 keepalive tick, C16 connectivity checks and srflx probe).
+#[cfg(rustrtc_verif)]
+impl IceTransport {
+    /// One `run_keepalive_tick` exactly as the runner's interval arm calls it (the cleanup future is dropped).
+    pub async fn verif_run_keepalive_tick(&self) {
+        let _ = IceTransportRunner::run_keepalive_tick(&self.inner).await;
+    }
+    /// One `perform_connectivity_checks_async` pass as the `RunChecks` command triggers it.
+    pub async fn verif_run_connectivity_checks(&self) {
+        perform_connectivity_checks_async(self.inner.clone()).await;
+    }
+    /// `IceGatherer::probe_stun` against a STUN server at `server` (UDP).
+    pub async fn verif_probe_stun(&self, server: SocketAddr) -> std::result::Result<Option<IceCandidate>, String> {
+        let uri = IceServerUri {
+            kind: IceUriKind::Stun,
+            host: server.ip().to_string(),
+            port: server.port(),
+            transport: IceTransportProtocol::Udp,
+        };
+        self.inner.gatherer.probe_stun(&uri).await.map_err(|e| format!("{e:#}"))
+    }
+    pub fn verif_registered_socket_count(&self) -> usize {
+        self.inner.gatherer.sockets.lock().len()
     }
 }
